@@ -392,7 +392,7 @@ pub fn run_c13(_batch: &str, tape: &mut Tape, rep: &mut Report) {
         Kind::SlidingTime(size, tape.range(1, 5) as i64)
     } else {
         let size = tape.range(1, 5) as usize;
-        Kind::SlidingCount(size, tape.range(1, size as u64) as usize)
+        Kind::SlidingCount(size, tape.range(1, size as u64 + 2) as usize)
     };
     let partitioned = tape.chance(1, 2) && (level_engine || matches!(kind, Kind::SlidingTime(..)));
     let n = tape.range(3, 40);
@@ -467,7 +467,10 @@ pub fn run_c13(_batch: &str, tape: &mut Tape, rep: &mut Report) {
             }
             Kind::SlidingCount(size, slide) => {
                 let full = p.hist.len() >= size;
-                let expect = if !full { false } else if !p.emitted_once { true } else { p.since_emit >= slide };
+                // first emission: with slide <= size it falls on the arrival that fills the window; with slide > size the
+                // statement leaves open whether the slide count runs from the start of the stream or from the first full
+                // window, so that one emission instant is not judged (every later one is: `slide` arrivals after the previous)
+                let expect = if !full { false } else if !p.emitted_once { if slide <= size { true } else { rep.not_judged += 1; got.is_some() } } else { p.since_emit >= slide };
                 if expect != got.is_some() {
                     let cls = if expect { "sliding-window-missed-emission" } else { "sliding-window-early-emission" };
                     rep.violate(cls, &sig, format!("seq={}: {} events in partition, {} since last emission, size={} slide={}, emitted={}", a.seq, p.hist.len(), p.since_emit, size, slide, got.is_some()));
